@@ -29,9 +29,18 @@ SPEC = dict(
          "attacker datagram inserted at EVERY position of 4 honest negotiations played by the harness; 1500 (8000) seeded random sequences "
          "of 3..14 (3..24) operations, each followed by an unmodelled malformed tail (single-bit flips of authentic messages, STUN-shaped "
          "random attributes, random bytes). A sequence is non-trivial when it yields >= 2 distinct observations. "
+         "STUN-SERVER block: 1 and 2 STUN servers (harness sockets) configured before bind; every sequence of length 2 (3) over 14 server-path "
+         "datagrams (answers from the server and from foreign addresses, error/request/indication classes, other method, bad/truncated/"
+         "overrunning attributes, guessed ids) followed by an ordinary negotiation; compared: local candidates added, gathering complete. "
+         "Also in the op alphabet: close() (then only datagrams and sendDatagram), setRemotePassword with a NEW value and responses "
+         "protected with the superseded password. Unmodelled tails after random sequences: malformed stream (above) and datagrams injected "
+         "through the TURN allocation's datagramReceived signal (the path relayed peer data takes), oracle only. "
          "TAMPER block (model-independent differential oracle): 144 honest negotiations are run twice on the real component, once with "
          "attributes (USE-CANDIDATE, PRIORITY, unknown, a second MESSAGE-INTEGRITY) appended behind the valid MESSAGE-INTEGRITY of a genuine "
          "request or response (FINGERPRINT recomputed) and once without: every observation must coincide. "
+         "Oracle additions: every application datagram the component writes goes to an address that was signalled or that sent an authenticated "
+         "request; server-reflexive candidates carry the RFC priority; a closed component reacts to nothing; the two STUN-discovery defect "
+         "probes (gathering stuck in-process; use-after-free in a child process under ASan). "
          "Oracle (model independent): a response counts as authenticated only once the remote password has been set; any response, check, pair-state change, selection, connected signal or isConnected change after "
          "a datagram without the valid MESSAGE-INTEGRITY for its class is a failure; advertised candidate priorities, the PRIORITY / "
          "role / USERNAME attributes of its checks and the logged pair priority equal the RFC 5245 formulas computed in the harness. "
@@ -53,7 +62,20 @@ SPEC = dict(
         "pair list behaving as a stable insertion sort for <= 16 elements (libstdc++)",
     ],
     assumptions=[
-        "one local host transport per modelled component, no STUN/TURN server configured (the two-agent runs also use two local addresses)",
+        "one local host transport per modelled component (the two-agent runs also use two local addresses); STUN servers are modelled for "
+        "their acceptance rule only (answers without mapped address / with an already known address are kept out of the correspondence: "
+        "today they leave a deleted transaction registered - findings C15:stun-discovery-*); no TURN server is run: relayed datagrams are "
+        "injected at the TURN transport's signal, oracle only",
+        "application (non-STUN) datagrams are delivered to the application from ANY source address, before and after a pair is selected, "
+        "and sendDatagram before selection writes to the fallback pair (first signalled candidate, or the known candidate that last sent "
+        "non-STUN data): RFC 5245 asks for neither source filtering nor waiting; recorded (theorems non_stun_no_effect, "
+        "fallback_changes_only_by_signalling_or_known_sender, stat app_data_from_non_candidate_source_delivered), not judged, because C15's "
+        "claim is about the connectivity state; what IS judged: data is never written to an address that was neither signalled nor authenticated",
+        "the source address of a STUN-server answer is not compared with the server's (theorem server_answer_source_not_checked, stat "
+        "server_answer_from_foreign_address_accepted): the 96-bit transaction id is the only protection of classic STUN discovery; C15's "
+        "attacker does not see transaction ids",
+        "after close(): nothing is received; sendDatagram still writes (Qt re-opens the closed QUdpSocket) to the fallback pair; connect/tick/"
+        "retransmission after close() are not modelled",
         "attacker = anyone who can send UDP datagrams to the component's port and read what is sent to its own address; it does not "
         "know either session password; sequences may nevertheless hand it the exact transaction id of the component's latest check "
         "('latest id'), i.e. an on-path observer is covered for the no-effect claim",
@@ -69,16 +91,21 @@ SPEC = dict(
     level_text="The model transcribes BOTH attribute walks as coded (pre-scan hasMessageIntegrity in handleDatagram: stops at FINGERPRINT; "
                "QXmppStunMessage::decode: verifies the first MESSAGE-INTEGRITY, stops successfully at FINGERPRINT) and the theorems are about "
                "their conjunction (accepted_means_verified, mi_after_fingerprint_counts_as_absent, decode_alone_never_looks_behind_fingerprint). "
-               "Theorems, for every state and every history of the model: EVERY unauthenticated STUN datagram (no protecting "
+               "Theorems, for EVERY state (STUN servers configured or not, closed or not) and every unauthenticated STUN datagram (no protecting "
                "MESSAGE-INTEGRITY - none, behind a FINGERPRINT, swallowed -, wrong key, the session's other password, truncated attribute; any "
                "attribute layout, class, source, user name, role attribute, "
                "USE-CANDIDATE, transaction id) leaves the component state unchanged and is never answered "
-               "(unauthenticated_traffic_no_effect, unauthenticated_datagram_dropped); histories of such datagrams have no effect and "
+               "(unauthenticated_traffic_no_effect: connectivity view AND fallback pair unchanged, nothing answered; whole state unchanged unless "
+               "the datagram carries the id of an outstanding STUN-server transaction; unauthenticated_datagram_dropped); for states without "
+               "outstanding server transactions histories of such datagrams have no effect and "
                "erasing them from ANY history changes neither the final state nor any output except the integrity warnings "
                "(forged_history_no_effect, forged_traffic_erasable); only validly authenticated messages can matter "
                "(reaction_only_to_valid_mi); the former two-packet take-over witness is inert (former_takeover_witness_is_inert). "
                "candidate_priority_rfc / advertised_priorities_rfc / pair_priority_rfc over constants regenerated from the source. "
-               "attributes_after_mi_ignored: whatever is appended behind a MESSAGE-INTEGRITY (USE-CANDIDATE, PRIORITY, further MI, unknown) "
+               "stun_server_path_never_touches_connectivity, server_reflexive_only_for_outstanding_transaction, server_answer_source_not_checked "
+               "(documented); fallback_changes_only_by_signalling_or_known_sender + send_goes_to_selected_else_fallback (where data goes before "
+               "selection); closed_component_is_inert; superseded_password_no_effect; use_candidate_from_controlled_side_rejected; "
+               "retransmission_gives_up; non_stun_no_effect (delivered from any source: documented). attributes_after_mi_ignored: whatever is appended behind a MESSAGE-INTEGRITY (USE-CANDIDATE, PRIORITY, further MI, unknown) "
                "changes nothing; response_before_remote_password_dropped. Liveness: honest_pair_connects_partial (either role assignment, any "
                "component and addresses, lossless in-order schedule); honest_pair_connects_despite_loss_partial (all 1024 combinations of role "
                "assignment x start order x triggered-check gap x an extra unreachable candidate per side and its position x loss of any subset of "
@@ -86,7 +113,12 @@ SPEC = dict(
                "operation ever disconnects); application_datagrams_carried / honest_pair_carries_datagram_lists: arbitrary payload LISTS arrive "
                "unchanged and in order in both directions.",
     level_note="Proved about the hand-written model; model-to-code tie is differential on a real component over loopback UDP (exhaustive "
-               "single datagrams / depth 2-3, interleavings at every point of honest negotiations, sampled beyond). The safety half is "
+               "single datagrams / depth 2-3, interleavings at every point of honest negotiations, sampled beyond). Modelled: peer checks, STUN-server discovery (acceptance rule), close(), separately set / replaced remote "
+               "credentials, fallback pair, retransmission and time-out. NOT modelled: the TURN allocation (forged datagrams are injected on "
+               "its path, oracle only), several local transports, role-conflict resolution (the code implements none: same-role requests are "
+               "dropped), behaviour after close() beyond receive/send. Open findings: C15:stun-discovery-never-completes and "
+               "C15:stun-discovery-use-after-free (one root cause, fixes/C15-stun-discovery-dangling-transaction.diff; the model follows the "
+               "repaired behaviour and the two triggering inputs are kept out of the correspondence). The safety half is "
                "full strength since repo commit f41aa68 (before it, integrity-less messages were processed: findings "
                "C15:binding-request-without-mi-processed / C15:binding-response-without-mi-accepted, now under 'fixed'; both oracle keys "
                "and the old witness stay in the harness). Liveness is proved for the lossless in-order schedule (all components and addresses) "
